@@ -1,13 +1,9 @@
 use crate::eng::*;
 pub fn run() {
-    let (ws, eos) = single_byte_vocab();
-    let env = make_env(&ws, eos, false);
-    let lark = "start: \"a\" start \"c\" | \"b\"\n";
+    let env = llguidance::toktrie::ApproximateTokEnv::single_byte_env();
+    let lark = "start: T T\nT: /(ab)+/\n";
     let mut m = new_matcher(&env, lark, &[]).unwrap();
-    for t in [b'a', b'b'] {
-        println!("mask {:?}", m.compute_mask().map(|v| mask_list(&v)));
-        println!("commit {:?}", m.consume_token(t as u32).map_err(|e| e.to_string()));
-        println!("accepting {:?} stopped {:?}", m.is_accepting(), m.is_stopped());
-    }
-    println!("mask {:?}", m.compute_mask().map(|v| mask_list(&v)));
+    println!("created");
+    let r = m.compute_mask();
+    println!("mask {:?}", r.map(|v| mask_list(&v)));
 }
